@@ -1203,6 +1203,19 @@ def rules(rep, facts):
         r7_shapes(rep, facts)
         for old in ('C12/R1', 'C12/R2', 'C12/R7'):
             rep.relabel(old, 'C01/R11', 'same verdict from both front ends (the serde route re-parses date-times with Datetime::from_str): ' if old == 'C12/R1' else '')
+    # semantic validity (what may be defined twice, extended or reopened) is decided by the layer behind the grammar: its walk, header and key/value
+    # functions evaluated on model states refuse what TOML forbids and accept what it permits
+    from .rules_c09 import r3c_walk_model, r8_attach_model, r9_keyval_model, r6b_opened_table_flags
+    r3c_walk_model(rep, facts)
+    r6b_opened_table_flags(rep, facts)
+    r8_attach_model(rep, facts)
+    r9_keyval_model(rep, facts)
+    for old_ in ('C09/R3c', 'C09/R6b', 'C09/R8', 'C09/R9'):
+        rep.relabel(old_, 'C01/R13', 'documents that redefine or illegally extend a table are refused, the permitted orders are accepted: ' if old_ == 'C09/R3c' else '')
+    if facts.config == 'default':
+        from .rules_c18 import r4_unbounded
+        r4_unbounded(rep)
+        rep.relabel('C18/R4', 'C01/R14', 'with the `unbounded` feature the same documents are accepted (and deeper ones): ')
 
 
 def run(tier):
